@@ -356,6 +356,6 @@ func genLayout(t *rapid.T) Layout {
 		FlatIf:    rapid.IntRange(0, 2).Draw(t, "flatif") == 0,
 		NoFinalNL: rapid.IntRange(0, 4).Draw(t, "nofinalnl") == 0,
 	}
-	lay.Tape = rapid.SliceOfN(rapid.SampledFrom([]uint8{0, 0, 0, 0, 0, 0, 1, 2, 3, 4, 5, 6, 7, 9, 13}), 0, 450).Draw(t, "tape")
+	lay.Tape = rapid.SliceOfN(rapid.SampledFrom([]uint8{0, 0, 0, 0, 0, 0, 0, 1, 2, 3, 4, 5, 6, 7, 9, 13}), 200, 450).Draw(t, "tape")
 	return lay
 }
